@@ -129,7 +129,31 @@ def compare_items(r, label, direction, m32, m64, x, ctx, det, me=None):
         if not cond < 1e6:
             r.count("skipped_illconditioned_items")
             continue
+        # composites: the parts' log-dets may cancel (sigmoid ... logit); rounding scales with the sum of their magnitudes
+        parts_abs = 0.0
+        squash_amp = 0.0
+        squash_max = 0.0
+        if getattr(m64, "_transforms", None) is not None:
+            try:
+                with torch.no_grad():
+                    h = x64[i:i + 1]
+                    plist = list((copy.deepcopy(m64) if m64.training else m64)._transforms)
+                    for part in (plist if direction == "forward" else plist[::-1]):
+                        h, lp = (part(h, ci) if direction == "forward" else part.inverse(h, ci))
+                        parts_abs += float(lp.abs().sum()) + float(h.abs().max())
+                        if float(h.min()) > 0.0 and float(h.max()) < 1.0 and float(torch.minimum(h, 1 - h).min()) < 0.05:
+                            # an intermediate squashed into (0,1): float32 resolves 1-u only to eps32 u/(1-u), and the
+                            # neighbouring Logit / Sigmoid log-det terms -log(u(1-u)) inherit exactly that relative error
+                            amp = (1.0 / torch.minimum(h, 1 - h)).clamp(max=1e9)
+                            squash_amp += float(amp.sum())
+                            squash_max = max(squash_max, float(amp.max()))
+            except Exception:
+                parts_abs = 0.0
         allowed_o = simple_o + 16 * E32 * rown * (1 + nx)
+        if squash_max > 0:
+            # a squashed intermediate u carries an absolute error eps32 u; the Logit that follows turns it into
+            # eps32 / min(u, 1-u) (the temperature-aware form of the exp(|y|) allowance below)
+            allowed_o = allowed_o + 32 * E32 * squash_max * torch.clamp(rown, min=1.0)
         if me is not None and "sigmoid_eps" in me["tags"]:
             # values squashed into (0,1) and expanded again: float32 resolves 1-u only to eps32/(1-u) ~ eps32*exp(|y|)
             allowed_o = allowed_o + 8 * E32 * torch.exp(torch.clamp(torch.maximum(o64[i].abs(), x64[i].abs().max()), max=30.0))
@@ -151,19 +175,7 @@ def compare_items(r, label, direction, m32, m64, x, ctx, det, me=None):
                     sens = max(sens, abs(la - lb) / den)
             except Exception:
                 pass
-        # composites: the parts' log-dets may cancel (sigmoid ... logit); rounding scales with the sum of their magnitudes
-        parts_abs = 0.0
-        if getattr(m64, "_transforms", None) is not None:
-            try:
-                with torch.no_grad():
-                    h = x64[i:i + 1]
-                    plist = list((copy.deepcopy(m64) if m64.training else m64)._transforms)
-                    for part in (plist if direction == "forward" else plist[::-1]):
-                        h, lp = (part(h, ci) if direction == "forward" else part.inverse(h, ci))
-                        parts_abs += float(lp.abs().sum()) + float(h.abs().max())
-            except Exception:
-                parts_abs = 0.0
-        allowed_l = simple_l + 64 * E32 * parts_abs + (1024 if direction == "inverse" else 256) * E32 * sens * (1 + nx) + \
+        allowed_l = simple_l + 64 * E32 * parts_abs + 32 * E32 * squash_amp + (1024 if direction == "inverse" else 256) * E32 * sens * (1 + nx) + \
             (8 * E32 * float(np.exp(min(abs(float(l64[i])), 30.0))) if me is not None and "spline_linear" in me["tags"] else 0.0)
         r.worst("out_err/allowed", float((oe / allowed_o).max()))
         r.worst("lad_err/allowed", le / allowed_l)
